@@ -8,7 +8,15 @@ import time
 VERIF = os.path.dirname(os.path.dirname(os.path.abspath(__file__)))
 HARNESS = os.path.join(VERIF, "harness")
 HARNESS_EVAL = os.path.join(VERIF, "harness-eval")
+# The tree under test. Registered checks always use /repo. For trying the monitors against a
+# scratch worktree (seeded changes) without touching /repo: VERIF_REPO=<dir>; the build output,
+# run files, replays and evidence of such a run go to build/alt-<tag>/ (never to evidence/).
+REPO = os.path.abspath(os.environ.get("VERIF_REPO", "/repo"))
+ALT = REPO != "/repo"
 BUILD = os.path.join(VERIF, "build")
+if ALT:
+    import hashlib
+    BUILD = os.path.join(VERIF, "build", "alt-" + os.path.basename(REPO) + "-" + hashlib.sha1(REPO.encode()).hexdigest()[:6])
 
 GEOMS = {
     "default": [],
@@ -35,7 +43,16 @@ class BuildError(Exception):
     pass
 
 
+def _alt(cmd):
+    """cargo path override: the harness crates name /repo/core and /repo/eval"""
+    if ALT and cmd[0] == "cargo":
+        i = 2 if cmd[1].startswith("+") else 1
+        cmd = cmd[:i] + ["--config", f'paths=["{REPO}/core","{REPO}/eval"]'] + cmd[i:]
+    return cmd
+
+
 def _run(cmd, cwd, env, log):
+    cmd = _alt(cmd)
     os.makedirs(BUILD, exist_ok=True)
     lock = open(os.path.join(BUILD, ".lock-" + os.path.basename(log)), "w")
     fcntl.flock(lock, fcntl.LOCK_EX)
@@ -91,7 +108,7 @@ def replay_bin():
     tdir = os.path.join(BUILD, "t-replay")
     log = os.path.join(BUILD, "build-replay.log")
     _run(["cargo", "build", "--offline", "-p", "llfree-eval", "--bin", "replay", "--features", "verif",
-          "--target-dir", tdir], "/repo", env_offline(), log)
+          "--target-dir", tdir], REPO, env_offline(), log)
     return os.path.join(tdir, "debug", "replay")
 
 
